@@ -5,8 +5,15 @@ from ..gen import Opt, schema_lines, MULTI, TITLE, NOCASE
 from .C06 import with_include
 from .C01 import hand_schemas
 
-THEOREMS = ["C13_errors", "C13_enter", "C13_return", "C13_position_roundtrip", "C13_depth_limit"]
-PARTIAL = "Proved: entering a good target saves the includer's file name and line and starts at line 1; reaching its end restores them (round trip is the identity); missing / directory / unresolvable / too deep targets reject with one diagnostic at the includer's position and leave the stack of open sources unchanged. Not proved: the splice theorem itself (tree of parse(pre ++ include(f) ++ post) = tree of parse(pre ++ f ++ post) modulo line/file fields) - it needs a simulation that ignores position fields through all 15 parser states; the implementation-side oracle compares split and flat dumps on every case."
+THEOREMS = ["C13_errors", "C13_enter", "C13_return", "C13_position_roundtrip", "C13_depth_limit", "C13_enter_positions_only", "C13_positions_irrelevant"]
+PARTIAL = ("Proved: entering a good target saves the includer's file name and line and starts at line 1; reaching its end restores them (round trip "
+           "is the identity); missing / directory / unresolvable / too deep targets reject with one diagnostic at the includer's position and leave the "
+           "stack of open sources unchanged; entering an include changes nothing but positions and the source stack (C13_enter_positions_only), and "
+           "positions - whatever file name and line an include left anywhere in the machine - can never influence acceptance, values, callbacks or "
+           "diagnostic classes of the tokens that follow (C13_positions_irrelevant, from the erasure theorem pstep_nat). Together with C01_refinement "
+           "(the token run is compositional) this is the splice property at the level of token sequences. Not proved: the byte-level statement for "
+           "parseLoop (that scanning file A up to the include, then file B, then the rest of A yields the token sequence of the spliced text - true "
+           "when the pieces end at token boundaries); the implementation-side oracle compares split and flat dumps on every case.")
 VARIANT = "asan"
 CASE_TIMEOUT = 20
 RULE = ("accepted texts as lists of top-level (and section-body) items, split at item boundaries into a tree of include files of "
